@@ -54,8 +54,9 @@ def _walk_worker(args):
     shutil.rmtree(sc, ignore_errors=True)
     return {"kind": kind, "targets": len(targets), "unreached": len(rem), "steps": w.steps, "behaviours": w.behaviours,
             "validated": w.validated, "findings": [(f.sig, f.what, f.replay) for f in w.findings], "drift": w.drift,
-            "executed": len(w.executed), "nontrivial": [(kind, s, li) for (s, li) in w.nontrivial],
-            "samples": w.samples, "git_calls": w.git.calls if w.git else 0}
+            "covered": len(targets) - len(rem), "nontrivial": [(kind, s, li) for (s, li) in w.nontrivial],
+            "samples": w.samples, "git_calls": w.git.calls if w.git else 0, "failed_clauses": w.nfindings,
+            "ndrift": w.ndrift}
 
 
 def _trace_worker(args):
@@ -116,6 +117,7 @@ def phase_models(ctx, pool_tlc):
     }
     if not ctx.quick:
         futs["n3"] = pool_tlc.submit(tlc.run, "RefMapFiles.tla", "RefMapFiles_n3.cfg", workers=2, timeout=1200)
+        futs["n5"] = pool_tlc.submit(tlc.run, "RefMapFiles.tla", "RefMapFiles_n5.cfg", workers=8, timeout=3000)
     for name, _ in NEG_CONTROLS:
         futs["neg:" + name] = pool_tlc.submit(tlc.run, "RefMapFiles.tla", f"RefMapFiles_neg_{name}.cfg", workers=2, timeout=600)
     return futs, dot, graph_cfg
@@ -153,13 +155,14 @@ def phase_replay(ctx, dot, nproc):
     summary = {}
     for r in results:
         s = summary.setdefault(r["kind"], {"targets": 0, "unreached": 0, "steps": 0, "behaviours": 0, "validated": 0,
-                                           "executed": 0, "git_calls": 0})
+                                           "covered": 0, "git_calls": 0, "failed_clauses": 0})
         for k in s:
             s[k] += r[k]
         for sig, what, obj in r["findings"]:
             ctx.violation(sig, what, obj)
         for dmsg in r["drift"]:
             ctx.drift_event(dmsg)
+        ctx.cov["drift"] += r["ndrift"] - len(r["drift"])
         for key in r["nontrivial"]:
             ctx.nontrivial(key)
         for smp in r["samples"]:
@@ -167,8 +170,9 @@ def phase_replay(ctx, dot, nproc):
         ctx.count(r["steps"])
         ctx.validated(r["validated"])
     for kind, s in summary.items():
-        ctx.log(f"graph replay {kind}: {s['executed']}/{s['targets']} transitions executed ({s['unreached']} unreached), "
-                f"{s['steps']} calls in {s['behaviours']} behaviours, {s['validated']} conform, git listings {s['git_calls']}")
+        ctx.log(f"graph replay {kind}: {s['covered']}/{s['targets']} transitions executed ({s['unreached']} unreached), "
+                f"{s['steps']} calls in {s['behaviours']} behaviours, {s['validated']} conform, "
+                f"{s['failed_clauses']} failed clauses, git listings {s['git_calls']}")
         if s["unreached"]:
             ctx.assumptions.append(f"graph replay {kind}: {s['unreached']} transitions not reached from a matching real state")
     ctx.cov["graph_replay"] = {"states": len(g.loose), "transitions": g.n_edges, "by_backend": summary}
@@ -176,7 +180,7 @@ def phase_replay(ctx, dot, nproc):
 
 
 def record_traces(ctx, nproc):
-    per = ctx.pick({"disk": 160, "dict": 80, "reftable": 48}, {"disk": 1800, "dict": 700, "reftable": 300})
+    per = ctx.pick({"disk": 160, "dict": 80, "reftable": 48}, {"disk": 1500, "dict": 600, "reftable": 240})
     length = ctx.pick(30, 40)
     git_every = ctx.pick(3, 1)
     jobs, tid = [], 0
